@@ -3,7 +3,7 @@
    undo it. The RevertUpdate diffs and proofs of the implementation are checked by the correspondence
    (store inverse after every revert, proofs equal to the pre-block proofs, byte-identical re-apply). *)
 From Coq Require Import ZArith List Bool.
-From Sia Require Import Prim.Result Prim.Tok Policy.Model Ledger.Types Ledger.Mid Ledger.Validate Ledger.Apply Ledger.Proofs.
+From Sia Require Import Prim.Result Prim.Tok Policy.Model Ledger.Types Ledger.Mid Ledger.Validate Ledger.Apply Ledger.Proofs Ledger.Revert.
 Import ListNotations.
 Open Scope Z_scope.
 
@@ -23,3 +23,21 @@ Print Assumptions C06_created_leaves_truncate.
 Theorem C06_reapply_identical : forall net s b r1 r2, apply_block net s b = r1 -> apply_block net s b = r2 -> r1 = r2.
 Proof. intros; congruence. Qed.
 Print Assumptions C06_reapply_identical.
+
+(* ---- undoing a whole block on the element store ---- *)
+(* any list: after rewriting positions, writing back at every rewritten position the value that stood there before
+   restores the list, whatever the order and multiplicity of the writes *)
+Theorem C06_write_back : forall ls news olds, map fst olds = map fst news ->
+  Forall (fun o => fst o = UNASSIGNED \/ nth_error ls (Z.to_nat (fst o)) = Some (snd o)) olds ->
+  write_all (write_all ls news) olds = ls.
+Proof. exact write_back. Qed.
+Print Assumptions C06_write_back.
+
+(* the block: dropping the appended leaves and writing back, at the leaf index of every diff, the element the diff
+   records (unspent, unrevised, unresolved) gives exactly the store before the block, provided each of those leaves held
+   that element before the block (what validation checks of every presented element) *)
+Theorem C06_revert_restores : forall net s b s' m, apply_block net s b = Ok (s', m) ->
+  Forall (fun o => fst o = UNASSIGNED \/ nth_error (s_leaves s) (Z.to_nat (fst o)) = Some (snd o)) (old_updates s m b) ->
+  revert_leaves s s' m b = s_leaves s.
+Proof. exact revert_restores. Qed.
+Print Assumptions C06_revert_restores.
